@@ -463,23 +463,7 @@ def director_scenario(rng, max_ts=3):
             sc.setdefault('init', {})
     sc['emit_step'] = 1
     sc['nest'] = rng.random() < 0.5
-    if sc['nest']:
-        declare_created(sc)
     return sc
-
-
-def declare_created(sc):
-    """Processes created later inside a compartment declare their variables
-    outside it ('..'); such a variable would start as None instead of its
-    default (a recorded finding of C09, see known_findings.jsonl).  These
-    scenarios are about scheduling, so the directors declare (and see) the
-    variables of the processes they create from the start."""
-    for cfg in sc['procs'].values():
-        for op in cfg.get('sops') or []:
-            if op and op['op'] == 'add':
-                for var in op['cfg']['vars']:
-                    if var not in cfg['vars']:
-                        cfg['vars'] = list(cfg['vars']) + [var]
 
 
 def recreate_scenarios():
@@ -500,7 +484,5 @@ def recreate_scenarios():
                     sc = {'procs': copy.deepcopy({'p1': p1, 'p2': p2, 'p3': p3}),
                           'order': ['p1', 'p2', 'p3'], 'nest': nest,
                           'calls': [[8, True]], 'emit_step': 1, 'init': {}}
-                    if nest:
-                        declare_created(sc)
                     out.append(sc)
     return out
